@@ -61,13 +61,18 @@ class Schedule:
         return pairs
 
 
-def make_providers(schedule, rc=None, fc=None, hints=None, packages=None, fc_function=None, decoys=True, sync_fc=()):
+class BackendUnavailable(Exception):
+    """what a user-supplied evaluator raises when the system it asks is down"""
+
+
+def make_providers(schedule, rc=None, fc=None, hints=None, packages=None, fc_function=None, decoys=True, sync_fc=(), rc_raises=()):
     """
     rc: key -> letter; fc: key -> bool (message embeds the key); hints: key -> text; packages: key -> text | None.
     fc_function(key, text) -> (bool, message) overrides fc (used by C15: the answer depends on the entered text).
     Every second rc key gets a plain (non-async) evaluation method - both kinds are supported by ahbicht.
     sync_fc: fc keys whose evaluation method is a plain function that - like a helper shared by many user methods would -
     reads the text from the documented context variable text_to_be_evaluated_by_format_constraint, not from its argument.
+    rc_raises: rc keys whose evaluation method raises BackendUnavailable (after its pauses, if it is a coroutine).
     """
     from ahbicht.content_evaluation.evaluationdatatypes import EvaluationContext
     from ahbicht.content_evaluation.fc_evaluators import FcEvaluator
@@ -92,7 +97,9 @@ def make_providers(schedule, rc=None, fc=None, hints=None, packages=None, fc_fun
     for index, (key, value) in enumerate(sorted(rc.items())):
         if index % 3 == 2:
 
-            def plain(self, evaluatable_data, context, value=value):  # pylint:disable=unused-argument
+            def plain(self, evaluatable_data, context, key=key, value=value):  # pylint:disable=unused-argument
+                if key in rc_raises:
+                    raise BackendUnavailable(f"the backend of [{key}] does not answer")
                 return sut.cfv(value)
 
             setattr(Rc, f"evaluate_{key}", plain)
@@ -103,6 +110,8 @@ def make_providers(schedule, rc=None, fc=None, hints=None, packages=None, fc_fun
                 # be visible to (or be overwritten by) the evaluation of another key
                 context.scope = f"$.key{key}"
                 await schedule.pause(("rc", key, value))
+                if key in rc_raises:
+                    raise BackendUnavailable(f"the backend of [{key}] does not answer")
                 if context.scope != f"$.key{key}":
                     return sut.cfv("U" if value == "F" else "F")  # evaluated in a foreign scope: a different answer
                 return sut.cfv(value)
